@@ -693,7 +693,9 @@ pub fn c03(c: &Collector, g: &mut Guard) {
         c.crash(format!("E1 two-parsers worker {} ended abnormally ({}), partition {:?}", cr.child, cr.how, cr.last_part));
     }
     // (d2) non-ASCII characters where a final is expected (dispatch on a truncated code point)
-    let mut odd: Vec<char> = (0x80u32..0x300).filter_map(char::from_u32).collect();
+    // (and every ASCII character from SP to DEL there and inside the parameters: `<`, `=`, `&`, `'`,
+    // `*`, `+`, `,`, `-`, `.`, `/` are in no other alphabet)
+    let mut odd: Vec<char> = (0x20u32..0x300).filter_map(char::from_u32).collect();
     for hi in [0x2000u32, 0x3000, 0xff00, 0x1f600, 0x10ff00] {
         for lo in [0x37u32, 0x38, 0x63, 0x44, 0x45, 0x4d, 0x48, 0x5b, 0x5d, 0x23, 0x28, 0x07, 0x1b, 0x6d, 0x72] {
             if let Some(ch) = char::from_u32(hi + lo) {
@@ -710,6 +712,9 @@ pub fn c03(c: &Collector, g: &mut Guard) {
             for w in [
                 format!("\x1b7\x1b[3;3H\x1b{}", ch),
                 format!("\x1b[5{}", ch),
+                format!("\x1b[{}5Ax", ch),
+                format!("\x1b[2;{}3Hx", ch),
+                format!("{}{}1mx", 0x9b as char, ch),
                 format!("\x1b[?25{}", ch),
                 format!("\x1b#{}", ch),
                 format!("\x1b({}", ch),
